@@ -204,7 +204,12 @@ def registration_pending_case(tr, how, n):
     registering it; with a set larger than the transport's buffers and a peer that does not read, the connection stays
     in that state.  close()/drop must end it too: the peer reaches end-of-stream after reading no more than what can have
     been in flight — a connection the library still FEEDS after the socket went away is not closed"""
-    count, size, cap = (16, 1 << 20, 6 << 20) if tr == "ipc" else (64, 1 << 20, 40 << 20)
+    # 8192 subscriptions of 8 KiB = 64 MiB to announce, one write per message.  On a healthy tree the per-connection task is
+    # dropped the next time it YIELDS after the stop signal: tokio's cooperative budget forces a yield every 128 writes
+    # (1 MiB here), and `select!` looks at the stop signal first with probability 1/2 each time — so what the peer can still
+    # read after close is what was in flight plus a geometrically distributed number of MiB; 40 MiB is ~35 rounds beyond
+    # the transport's buffers (2^-35).  A tree that keeps feeding delivers all 64 MiB.
+    count, size, cap = (8192, 8192, 40 << 20)
     ops = ["sock 1 SUB", f"subbig 1 {count} {size}", f"bind 1 {tr}", "rawconn 5 ep#0", "rawhs 5 PUB", "rawwait 5 hs", "pause 200",
            "close 1" if how == "close" else "dropsock 1", "probegone ep#0", f"rawwait 5 eofcap {cap}"]
     c = Case(f"SUB:{how}:net-{tr}-registration-pending#{n}", "net", ops, [f"net-{how}", "registration-pending"])
